@@ -505,6 +505,122 @@ Proof. exact flat_list_inj. Qed.
 
 End EndToEnd.
 
+(* ================================================================== INSTANTIATION (Model/Inst.v, Proofs/Inst.v, Proofs/InstGc.v)
+   what an embedder does before the first call is inside the model: global initialisers (constants, global.get of an earlier global), active
+   element segments into the table and active data segments into the memory (bounds-checked as a whole, out of bounds = instantiation fails),
+   the start function; compared with V8 by Run/InstRun.v *)
+From WV Require Import Model.Inst Proofs.Inst Proofs.InstGc.
+Section Instantiation.
+Local Open Scope N_scope.
+(* instantiating the round-tripped module (functions reordered with start / element segments / call sites renamed, tables / memories renumbered,
+   global indices renamed with compensating slot maps) gives the same verdict and, when it succeeds, the same initial state and table; every call
+   afterwards behaves the same *)
+Theorem c01_instantiate_then_call_round_trip :
+  forall (im im' : imod) (lslot lslot' : N -> N -> N) (fslot gslot mslot tslot fslot' gslot' mslot' tslot' : N -> N)
+         (cxo : N -> pctx) (ecxo : N -> ectx) (rf rg rtb rm : N -> N),
+       renamed rf rg rtb rm im im' ->
+       (forall g : N, gslot' (rg g) = gslot g) ->
+       (forall k : N, k < N.of_nat (List.length (im_globals im)) -> gslot' k = gslot k) ->
+       (forall tb : N, tslot' (rtb tb) = tslot tb) ->
+       (forall mi : N, mslot' (rm mi) = mslot mi) ->
+       (forall i : N, fslot' (rf i) = fslot i) ->
+       (forall (i i2 : N) (d d2 : fdef), nth_optN i (im_funcs im) = Some d -> nth_optN i2 (im_funcs im) = Some d2 -> fslot i = fslot i2 -> i = i2) ->
+       (forall (j : N) (d' : fdef), nth_optN j (im_funcs im') = Some d' -> exists (i : N) (d : fdef), nth_optN i (im_funcs im) = Some d /\ rf i = j) ->
+       (forall (tbl : list (option N)) (i ti : N) (ls : list valty) (body : list rt),
+        nth_optN i (im_funcs im) = Some (ti, ls, body) ->
+        fn_ok (env_of (cmod_of im tbl) lslot fslot gslot mslot tslot)
+          (env_of (cmod_of im' (map (option_map rf) tbl)) lslot' fslot' gslot' mslot' tslot') cxo ecxo (fslot i) body /\
+        (exists (ti' : N) (ls' : list valty),
+           nth_optN (rf i) (im_funcs im') = Some (ti', ls', out_body (cxo (fslot i)) (ecxo (fslot i)) body) /\
+           nth_optN ti' (im_tys im') = nth_optN ti (im_tys im) /\
+           frames_agree (env_of (cmod_of im tbl) lslot fslot gslot mslot tslot)
+             (env_of (cmod_of im' (map (option_map rf) tbl)) lslot' fslot' gslot' mslot' tslot') (fslot i) ti ls ls' body)) ->
+       forall (fuel k k2 fuel2 : nat) (f : N) (args : list val),
+       inst_equiv cxo ecxo (instantiate fuel k im lslot fslot gslot mslot tslot) (instantiate fuel k im' lslot' fslot' gslot' mslot' tslot') /\
+       call_after (instantiate fuel k im' lslot' fslot' gslot' mslot' tslot') k2 fuel2 f args =
+       call_after (instantiate fuel k im lslot fslot gslot mslot tslot) k2 fuel2 f args.
+Proof.
+  intros im im' lslot lslot' fslot gslot mslot tslot fslot' gslot' mslot' tslot' cxo ecxo rf rg rtb rm H1 H2 H3 H4 H5 H6 H7 H8 H9 fuel k k2 fuel2 f args.
+  split.
+  - exact (inst_roundtrip im im' lslot lslot' fslot gslot mslot tslot fslot' gslot' mslot' tslot' cxo ecxo rf rg rtb rm H1 H2 H3 H4 H5 H6 H7 H8 H9 fuel k).
+  - exact (inst_then_call_roundtrip im im' lslot lslot' fslot gslot mslot tslot fslot' gslot' mslot' tslot' cxo ecxo rf rg rtb rm H1 H2 H3 H4 H5 H6 H7 H8 H9 fuel k k2 fuel2 f args).
+Qed.
+
+(* the premise "listed globals keep their positions" is needed: with two constant globals swapped by the renaming the instances differ *)
+Theorem c01_instantiate_round_trip_needs_global_positions :
+  exists (im im' : imod) (rg gslot gslot' : N -> N) (cxo : N -> pctx) (ecxo : N -> ectx),
+    renamed idN rg idN idN im im' /\ (forall g : N, gslot' (rg g) = gslot g) /\ (forall a b : N, rg a = rg b -> a = b) /\
+    im_funcs im = nil /\ im_funcs im' = nil /\
+    ~ inst_equiv cxo ecxo (instantiate 0 0 im (fun _ : N => idN) idN gslot idN idN) (instantiate 0 0 im' (fun _ : N => idN) idN gslot' idN idN).
+Proof. exact inst_roundtrip_needs_gpos. Qed.
+
+(* an active segment that does not fit fails instantiation, whatever follows *)
+Theorem c01_out_of_bounds_element_segment_fails_instantiation :
+  forall (gslot mslot tslot : N -> N) (fuel k : nat) (im : imod) (lslot : N -> N -> N) (fslot : N -> N) (pre : list eseg)
+         (tb : N) (off : cexpr) (fs : list (option N)) (post : list eseg) (gl : list (N * val)) (t1 : list (option N)) (o : N),
+       im_elems im = (pre ++ EActive tb off fs :: post)%list ->
+       inst_globals gslot 0 (im_globals im) nil = Some gl ->
+       inst_elems gslot tslot gl pre (tbl0 im) = POk t1 ->
+       tslot tb = 0 ->
+       eval_cexpr gslot gl off = Some (VI32 o) ->
+       tbl_size t1 < o + N.of_nat (List.length fs) -> instantiate fuel k im lslot fslot gslot mslot tslot = ITrap.
+Proof. exact inst_oob_traps_elem. Qed.
+Theorem c01_out_of_bounds_data_segment_fails_instantiation :
+  forall (gslot mslot tslot : N -> N) (fuel k : nat) (im : imod) (lslot : N -> N -> N) (fslot : N -> N) (pre : list dseg)
+         (mi : N) (off : cexpr) (bs : list N) (post : list dseg) (gl : list (N * val)) (tbl : list (option N)) (m1 : list (N * N)) (o : N),
+       im_datas im = (pre ++ DActive mi off bs :: post)%list ->
+       inst_globals gslot 0 (im_globals im) nil = Some gl ->
+       inst_elems gslot tslot gl (im_elems im) (tbl0 im) = POk tbl ->
+       inst_datas gslot mslot gl (pages0 im) pre nil = POk m1 ->
+       mslot mi = 0 ->
+       eval_cexpr gslot gl off = Some (VI32 o) ->
+       pages0 im * page_size < o + N.of_nat (List.length bs) -> instantiate fuel k im lslot fslot gslot mslot tslot = ITrap.
+Proof. exact inst_oob_traps_data. Qed.
+
+(* the GC pass drops unused passive / declared segments and unused globals: neither is visible *)
+Theorem c01_dropping_passive_segments_is_invisible :
+  forall (fuel k : nat) (im im' : imod) (lslot : N -> N -> N) (fslot gslot mslot tslot : N -> N),
+       im_tys im' = im_tys im -> im_funcs im' = im_funcs im -> im_globals im' = im_globals im -> im_mem im' = im_mem im ->
+       im_table im' = im_table im -> im_start im' = im_start im ->
+       dropped e_passive (im_elems im) (im_elems im') -> dropped d_passive (im_datas im) (im_datas im') ->
+       instantiate fuel k im' lslot fslot gslot mslot tslot = instantiate fuel k im lslot fslot gslot mslot tslot.
+Proof. exact inst_dropping_passive_is_invisible. Qed.
+Theorem c01_instantiate_then_call_round_trip_with_globals_dropped :
+  forall (im im' : imod) (lslot lslot' : N -> N -> N) (fslot gslot mslot tslot fslot' gslot' mslot' tslot' : N -> N)
+         (cxo : N -> pctx) (ecxo : N -> ectx) (rf rg rtb rm : N -> N) (U : list N) (gl : list (N * val)),
+       renamed_gc rf rg rtb rm gslot U im im' ->
+       (forall g : N, List.In (gslot g) U -> gslot' (rg g) = gslot g) ->
+       (forall tb : N, tslot' (rtb tb) = tslot tb) ->
+       (forall mi : N, mslot' (rm mi) = mslot mi) ->
+       inst_globals gslot 0 (im_globals im) nil = Some gl ->
+       (forall (i ti : N) (ls : list valty) (body : list rt),
+        nth_optN i (im_funcs im) = Some (ti, ls, body) -> forall g : N, List.In g (globals_used body) -> List.In (gslot g) U) ->
+       (forall i : N, fslot' (rf i) = fslot i) ->
+       (forall (i i2 : N) (d d2 : fdef), nth_optN i (im_funcs im) = Some d -> nth_optN i2 (im_funcs im) = Some d2 -> fslot i = fslot i2 -> i = i2) ->
+       (forall (j : N) (d' : fdef), nth_optN j (im_funcs im') = Some d' -> exists (i : N) (d : fdef), nth_optN i (im_funcs im) = Some d /\ rf i = j) ->
+       (forall (tbl : list (option N)) (i ti : N) (ls : list valty) (body : list rt),
+        nth_optN i (im_funcs im) = Some (ti, ls, body) ->
+        fn_ok (env_of (cmod_of im tbl) lslot fslot gslot mslot tslot)
+          (env_of (cmod_of im' (map (option_map rf) tbl)) lslot' fslot' gslot' mslot' tslot') cxo ecxo (fslot i) body /\
+        (exists (ti' : N) (ls' : list valty),
+           nth_optN (rf i) (im_funcs im') = Some (ti', ls', out_body (cxo (fslot i)) (ecxo (fslot i)) body) /\
+           nth_optN ti' (im_tys im') = nth_optN ti (im_tys im) /\
+           frames_agree (env_of (cmod_of im tbl) lslot fslot gslot mslot tslot)
+             (env_of (cmod_of im' (map (option_map rf) tbl)) lslot' fslot' gslot' mslot' tslot') (fslot i) ti ls ls' body)) ->
+       forall (fuel k k2 fuel2 : nat) (f : N) (args : list val),
+       call_rel U (call_after (instantiate fuel k im lslot fslot gslot mslot tslot) k2 fuel2 f args)
+         (call_after (instantiate fuel k im' lslot' fslot' gslot' mslot' tslot') k2 fuel2 f args).
+Proof. exact inst_then_call_roundtrip_gc. Qed.
+
+(* the initial state the whole-module tie (Run/SemModRun.v) used to take from the harness is the one the model computes *)
+Theorem c01_instantiation_yields_the_initial_state_of_the_module_tie :
+  forall (c : SemModRun.modcase) (fs : list (option N)) (n : nat) (mx : option N) (fuel k : nat),
+       SemModRun.mc_table c = (fs ++ List.repeat None n)%list ->
+       instantiate fuel k (imod_of_modcase c fs mx) (fun _ : N => SemCoreRun.idN) SemCoreRun.idN SemCoreRun.idN SemCoreRun.idN SemCoreRun.idN =
+       IOk (SemModRun.env_id c) (SemModRun.mod_init c).
+Proof. exact inst_of_modcase. Qed.
+End Instantiation.
+
 Print Assumptions c01_normal_form_is_equivalent.
 Print Assumptions c01_equivalence_on_the_renamed_operators.
 Print Assumptions c01_divergence_preserved.
@@ -536,3 +652,10 @@ Print Assumptions c01_parse_then_emit_preserves_whole_module_behaviour_from_the_
 Print Assumptions c01_local_index_range_is_necessary.
 Print Assumptions c01_from_the_stream_example.
 Print Assumptions c01_flat_list_determines_the_tree.
+Print Assumptions c01_instantiate_then_call_round_trip.
+Print Assumptions c01_instantiate_round_trip_needs_global_positions.
+Print Assumptions c01_out_of_bounds_element_segment_fails_instantiation.
+Print Assumptions c01_out_of_bounds_data_segment_fails_instantiation.
+Print Assumptions c01_dropping_passive_segments_is_invisible.
+Print Assumptions c01_instantiate_then_call_round_trip_with_globals_dropped.
+Print Assumptions c01_instantiation_yields_the_initial_state_of_the_module_tie.
